@@ -710,6 +710,24 @@ func (s *Store) Concat(h, l *Term) *Term {
 			return s.Concat(s.Extract(h.A[0], uint8(h.C>>8), uint8(l.A[0].C&0xff)), l.A[1])
 		}
 	}
+	// h = extract(x, top..k) and l is (a simplified form of) extract(x, k-1..j): extracts of sums and
+	// products are narrowed on construction, so compare with what Extract would build
+	if h.Op == OpExtract {
+		hl := uint8(h.C & 0xff)
+		if hl >= l.W && l.W > 0 && !l.IsConst() {
+			if cand := s.Extract(h.A[0], hl-1, hl-l.W); cand == l {
+				return s.Extract(h.A[0], uint8(h.C>>8), hl-l.W)
+			}
+		}
+		if l.Op == OpConcat {
+			l0 := l.A[0]
+			if hl >= l0.W && !l0.IsConst() {
+				if cand := s.Extract(h.A[0], hl-1, hl-l0.W); cand == l0 {
+					return s.Concat(s.Extract(h.A[0], uint8(h.C>>8), hl-l0.W), l.A[1])
+				}
+			}
+		}
+	}
 	if h.IsConst() && h.C == 0 {
 		return s.Zext(l, uint8(w))
 	}
